@@ -24,12 +24,12 @@ RULE = ("explicit-state search: states = contents of two real HDF5 files X, Y (c
         "is_cooler is False WITHOUT raising for every other path of the alphabet, a data set path, a missing path, a missing file; "
         "foreign objects and attributes untouched; an operation on a missing source (no overwrite) touches nothing that existed. "
         "Non-trivial: a transition from a state holding >=1 collection. Distinct by construction (state dedup).")
-BOUNDS = {"quick": "depth 2 from the empty and the seeded initial state; depth 1 over a 5-path alphabet from the linked initial state (soft + hard link to a collection)",
-          "thorough": "depth 3 from the empty state (third step restricted to operations on file X, operations on a missing source up to depth 2), depth 2 from the seeded and the linked state"}
+BOUNDS = {"quick": "depth 2 from the empty and the seeded initial state; depth 1 over a 5-path alphabet from the linked initial state (soft + hard link to a collection); every cp / cp -w / mv / ln / ln -s operation of the alphabet is also run once through the command line from the seeded and the linked state (depth 1; depth 2 from the linked state in the thorough tier), with `cooler ls` and `cooler ls -l` compared with the listing in every state reached",
+          "thorough": "depth 3 from the empty state (third step restricted to operations on file X, operations on a missing source up to depth 2), depth 2 from the seeded and the linked state; every cp / cp -w / mv / ln / ln -s operation of the alphabet is also run once through the command line from the seeded and the linked state (depth 1; depth 2 from the linked state in the thorough tier), with `cooler ls` and `cooler ls -l` compared with the listing in every state reached"}
 ASSUMPTIONS = ["excluded from the alphabet (no defined meaning): mv / hard ln whose source is the root group, any operation whose destination "
                "lies inside the source's own subtree or is already occupied (except create and cp(overwrite)), links through links of another file",
                "two files with the same canonical model state have the same futures under every operation of the alphabet"]
-EXPECT_CLASSES = {"*": ["op:create", "op:cp", "op:cp-overwrite", "op:mv", "op:ln-hard", "op:ln-soft", "op:ln-ext", "refused-as-required", "depth:2"]}
+EXPECT_CLASSES = {"*": ["op:create", "op:cp", "op:cp-overwrite", "op:mv", "op:ln-hard", "op:ln-soft", "op:ln-ext", "refused-as-required", "depth:2", "via-cli"]}
 
 PATHS = ["/", "/a", "/a/b", "/c"]
 FILES = ["X", "Y"]
@@ -85,6 +85,11 @@ def units(tier):
             yield {"init": init, "first": k, "depth": 3 if (th and init == "empty") else 2}
     for k in range(len(OPS_L)):
         yield {"init": "linked", "first": k, "depth": 2 if th else 1}
+    # the same operations through the command line (cooler cp | mv | ln [-s] | cp -w), listing through `cooler ls [-l]`
+    for init, ops in (("seeded", OPS), ("linked", OPS_L)):
+        for k in range(len(ops)):
+            if ops[k][0] != "create":
+                yield {"init": init, "first": k, "depth": 2 if (th and init == "linked") else 1, "via": "cli"}
 
 
 def spell(path, k):
@@ -97,8 +102,9 @@ def spell(path, k):
 class World:
     """the real side: a directory holding X.cool / Y.cool"""
 
-    def __init__(self, d):
+    def __init__(self, d, via="api"):
         self.d = d
+        self.via = via
 
     def path(self, f):
         return os.path.join(self.d, f + ".cool")
@@ -111,7 +117,7 @@ class World:
         for f in FILES:
             if os.path.exists(self.path(f)):
                 shutil.copy(self.path(f), os.path.join(d2, f + ".cool"))
-        return World(d2)
+        return World(d2, self.via)
 
     def apply(self, op, k):
         import cooler
@@ -125,6 +131,15 @@ class World:
         else:
             _, sf, sp, df, dp = op
             s, t = self.uri(sf, sp, k), self.uri(df, dp, k + 1)
+            if self.via == "cli":
+                args = {"cp": ["cp"], "cp-overwrite": ["cp", "-w" if k % 2 else "--overwrite"], "mv": ["mv"], "ln-hard": ["ln"],
+                        "ln-soft": ["ln", "-s" if k % 2 else "--soft"], "ln-ext": ["ln", "-s"]}[kind]
+                code, so, exc = build.cli(args + [s, t])
+                if exc is not None:
+                    raise exc
+                if code != 0:
+                    raise RuntimeError(f"cooler {' '.join(args)} exits {code}: {so!s:.200}")
+                return
             if kind == "cp":
                 fileops.cp(s, t)
             elif kind == "cp-overwrite":
@@ -209,6 +224,15 @@ def observe(R, inner, w, m, seeded, paths=PATHS):
                         ok = False
                 except Exception as e:
                     R.mismatch("listed-path-not-recognised" + (":external-link" if m.has_external(f) else ""), inner, f"file={f} path={p} {type(e).__name__}")
+                    ok = False
+        if w.via == "cli" and got is not None:
+            wb_size = {"D1": "2", "D2": "<variable>"}
+            for flag in ([], ["-l"], ["--long"]):
+                code, so, exc = build.cli(["ls"] + flag + [fp])
+                lines = [ln for ln in (so or "").splitlines() if ln.strip()]
+                exp = [fp + "::" + p + (("\t" + wb_size[want[p]]) if flag else "") for p in got]
+                if code != 0 or exc is not None or lines != exp:
+                    R.mismatch("cooler-ls!=list_coolers", inner, f"flag={flag} code={code} exc={exc!r:.100} got={lines} want={exp}")
                     ok = False
         # ---- every collection recognised and reads identically ----
         for p, d in sorted(want.items()):
@@ -307,9 +331,12 @@ def run(unit, R, tier, only=None):
     seeded = unit["init"] == "seeded"
     OPS = OPS_L if unit["init"] == "linked" else globals()["OPS"]
     paths = PATHS_L if unit["init"] == "linked" else PATHS
-    root = scratch.sub(f"c15_{os.getpid()}_{unit['init']}_{unit['first']}")
+    root = scratch.sub(f"c15_{os.getpid()}_{unit['init']}_{unit['first']}_{unit.get('via', 'api')}")
     try:
         w0, m0 = initial(unit["init"], os.path.join(root, "s0"))
+        w0.via = unit.get("via", "api")
+        if w0.via == "cli":
+            R.cls("via-cli")
         os.makedirs(w0.d, exist_ok=True)
         frontier = [([], w0, m0)]
         seen = {m0.canon()}
